@@ -418,6 +418,9 @@ Definition prim_call (f : string) (vs : list cval) (σ : cstate) : option (cval 
                   | None => Some (VTuple [VNil; VErr EGen], σ)
                   end
     | _ => None end
+  else if name_eqb f "selectPruneTargets" then
+    (* the prune policy: tied to the model's [prune_targets] by B_Prune.v *)
+    match vs with [VGraph g] => Some (VList (VStr <$> prune_targets g), σ) | _ => None end
   else if name_eqb f "readEvents" then
     (* the log as read: an opaque token; its replay is [cs_load] *)
     match vs with [VStr _] => Some (VTuple [VGlobal "<log>"; VNil], σ) | _ => None end
@@ -488,7 +491,7 @@ Definition is_prim (f : string) : bool :=
     ["strings.TrimSpace"; "strings.ContainsAny"; "strings.HasPrefix"; "strings.Contains"; "filepath.Clean";
      "filepath.IsAbs"; "filepath.Join"; "filepath.Dir"; "getEventsPath"; "errors.New"; "fmt.Errorf"; "strings.Join";
      "formatTime"; "newEvent"; "validateTransition"; "validateClaimInvariant"; "hasCycle"; "readyTasks"; "loadGraph";
-     "appendEvents"; "readEvents"; "replayEvents"; "appendEventsAtomically"; "newShortID"; "newUUID"; "os.Stat"; "os.IsNotExist"; "captureResultEvidence"; "deps.isnil"; "fmt.Println"].
+     "appendEvents"; "selectPruneTargets"; "readEvents"; "replayEvents"; "appendEventsAtomically"; "newShortID"; "newUUID"; "os.Stat"; "os.IsNotExist"; "captureResultEvidence"; "deps.isnil"; "fmt.Println"].
 
 (** * Expressions (left to right; calls thread the state) *)
 Section ceval.
@@ -712,6 +715,7 @@ Definition zero_value (ty : string) : option cval :=
   else if name_eqb ty "time.Time" then Some (VTime zero_time)
   else if name_eqb ty "string" then Some (VStr "")
   else if name_eqb ty "createOutput" then Some (VStruct "createOutput" [])
+  else if name_eqb ty "PrunePlan" then Some (VStruct "PrunePlan" [("PrunedIDs", VNil); ("Items", VNil)])
   else None.
 
 Definition get_graph (ρ : cenv) (g : string) : option graph :=
